@@ -190,11 +190,34 @@ __CPROVER_ensures(model_last_map < NMARK && MARKS[model_last_map].first._id == (
                   (unsigned long)GPAR(GNC - 1, PI_jmpc_offset) < NLAB) /*@C01,C03*/;
 
 /* ------------------------------------------------------------------ dispatchAssign / dispatchArgs */
+/* callees of dispatchAssign with a record of their call (which variable, which register; which expression into which target) */
+int g_fv_calls, g_fv_ret, g_fv_seq, g_va_calls, g_va_tgt, g_va_seq, g_as_seq;
+long g_fv_name;
+void *g_va_node;
+int c_fetchVariableRegister_rec(void *p, long name_id)
+REQ_GS(p)
+__CPROVER_assigns(g_top->register_state._n, __CPROVER_object_whole(REGS), g_fv_calls, g_fv_ret, g_fv_seq, g_fv_name, g_as_seq)
+__CPROVER_ensures(__CPROVER_return_value >= 0 && (unsigned long)__CPROVER_return_value < NREG && REGS[__CPROVER_return_value].name._id == name_id)
+__CPROVER_ensures(NREG >= OLD(NREG) && NREG <= RCAP)
+__CPROVER_ensures(g_fv_calls == OLD(g_fv_calls) + 1 && g_fv_ret == __CPROVER_return_value && g_fv_name == name_id && g_as_seq == OLD(g_as_seq) + 1 &&
+                  g_fv_seq == g_as_seq);
+void c_dispatchValue_rec2(void *p, void *c, int tgt)
+REQ_GS(p)
+__CPROVER_assigns(g_gs->out.code._n, __CPROVER_object_whole(GCODE), g_gs->errors._n, __CPROVER_object_whole(g_gs->errors._d),
+                  g_top->register_state._n, __CPROVER_object_whole(REGS), g_va_calls, g_va_tgt, g_va_seq, g_va_node, g_as_seq)
+ENS_MONO
+__CPROVER_ensures(g_va_calls == OLD(g_va_calls) + 1 && g_va_node == c && g_va_tgt == tgt && g_as_seq == OLD(g_as_seq) + 1 && g_va_seq == g_as_seq);
+
+/* x := e  generates exactly: the value of e into the register of x (allocated on first mention) - whatever e is, every time */
 void c_dispatchAssign(void *p, void *c)
 REQ_GS(p)
 __CPROVER_requires(NODE_OK(c) && NODE_OK(((node_t *)(c))->left))
+__CPROVER_requires(g_fv_calls == 0 && g_va_calls == 0 && g_as_seq == 0)
 ASSIGNS_GS
-ENS_MONO;
+__CPROVER_assigns(g_fv_calls, g_fv_ret, g_fv_seq, g_fv_name, g_va_calls, g_va_tgt, g_va_seq, g_va_node, g_as_seq)
+ENS_MONO
+__CPROVER_ensures(g_fv_calls == 1 && g_fv_name == ((node_t *)(((node_t *)(c))->left))->tok._id && g_fv_seq == 1) /*@C01,C03*/
+__CPROVER_ensures(g_va_calls == 1 && g_va_node == ((node_t *)(c))->right && g_va_tgt == g_fv_ret && g_va_seq == 2) /*@C01*/;
 
 #define ARGNUM (g_top->argnum)
 /* the parameter list is a tree of SPLIT nodes over NAME leaves.  The function under contract needs its own node and
@@ -322,6 +345,9 @@ __CPROVER_assigns(__CPROVER_object_whole(GCODE), g_gs->backpatching_todo._n, g_g
 /* every pending jump gets offset = position of its label - its own position; its opcode and other operands stay */
 __CPROVER_ensures(g_bp >= OLD(NBP) || !BP_IS_JUMP ||
                   (GOP(gb_loc) == gb_op && GPAR(gb_loc, 0) == gb_tgt - gb_loc && GPAR(gb_loc, 1) == gb_p1 && GPAR(gb_loc, 2) == gb_p2)) /*@C03,C01*/
+/* a pending position that is not a jump is an internal error: reported, the instruction is left alone */
+__CPROVER_ensures(g_bp >= OLD(NBP) || BP_IS_JUMP ||
+                  (GOP(gb_loc) == gb_op && GPAR(gb_loc, 0) == gb_lab && GPAR(gb_loc, 1) == gb_p1 && GPAR(gb_loc, 2) == gb_p2 && GNERR > OLD(GNERR))) /*@C03,C02*/
 /* an unset label is reported (C04: jump to an unknown mark) */
 __CPROVER_ensures(g_bp >= OLD(NBP) || !BP_IS_JUMP || gb_tgt != -1 || GNERR > OLD(GNERR)) /*@C04,C03*/
 /* instructions that are not pending are untouched; the program does not change size; the list is consumed */
@@ -485,7 +511,7 @@ void w_dispatchAssign(void *p, void *c); void w_dispatchArgs(void *p, void *c);
 void h_dispatchWhile(void) { void *p = setup(); void *c; g_rec_calls = 0; w_dispatchWhile(p, c); CANARY; }
 void h_dispatchGoto(void) { void *p = setup(); void *c; g_w = nondet_ulong(); w_dispatchGoto(p, c); CANARY; }
 void h_dispatchMark(void) { void *p = setup(); void *c; g_w = nondet_ulong(); w_dispatchMark(p, c); CANARY; }
-void h_dispatchAssign(void) { void *p = setup(); void *c; w_dispatchAssign(p, c); CANARY; }
+void h_dispatchAssign(void) { void *p = setup(); void *c; g_fv_calls = 0; g_va_calls = 0; g_as_seq = 0; w_dispatchAssign(p, c); CANARY; }
 void w_dispatchIf(void *p, void *c);
 void h_dispatchIf(void) { void *p = setup(); void *c; g_w = nondet_ulong(); w_dispatchIf(p, c); CANARY; }
 void h_dispatchArgs(void) { void *p = setup(); void *c; g_top->argnum = nondet_int(); w_dispatchArgs(p, c); CANARY; }
